@@ -23,7 +23,7 @@ def DS.slot (d : DS) (k : Nat) : Nat := d.slots.getD k 0
 def DS.reg (d : DS) (o : Nat) : DS := { d with slots := d.slots ++ [o] }
 
 def P : Producers := { rot := Gen.C12.rotatorClassifiers, pass := Gen.C12.passOutClassifiers,
-                       sym := Gen.C12.symmetricClassifiers }
+                       sym := Gen.C12.symmetricClassifiers, reuse := Gen.C12.outReuse }
 
 /-! ### numbering of identities -/
 
